@@ -11,7 +11,7 @@ claim('C18',
       'Bounded proof, inductive step: one soxr_output call of the real soxr.c from any API state with a nondeterministic input function (short supply, end, failure at any of <= 4 calls) over the abstract engine: request <= max_ilen, consume-once-in-order (ghost sequence numbers checked inside the engine), no call after end/failure/in error state, error string set.',
       'Trusted: cbmc; abstract engine contract; frames per call <= 3 (4 thorough); datatypes/layout/engine/channels enumerated per obligation.')
 
-for pid in ['C16',
+for pid in [
             'C17']:
     na(pid, 'check under construction in this session (breadth-first build order of DESIGN.md section 12); not yet claimed')
 
@@ -65,3 +65,7 @@ claim('C14',
 claim('C12',
       'cbmc: exact rational stepping of the real poly-fir0 kernels (shift covariance), gain folded into every entry of the real poly-phase coefficient table exactly once, scale x datatype ratio handed to the engines; hybrid E4: whole-conversion DC gain and per-output-phase gain equal io_spec.scale for scale in {1, 0.5, 4} on the configuration list.',
       'Partial: superposition within the configured precision (floating-point rounding over FFT/FIR sums) is not decided; basis-input argument (table linear in the taps) for the coefficient-table lemma.', technique=E4, category='other')
+
+claim('C16',
+      'Bounded proof over the real vr32.c arithmetic: slew set-up (sign, total movement within one LSB per frame of the target, division paths agree), per-frame stepping of poly_fir_u/d (position += step, step += step_step exactly once), forwarding of ratio/slew to every channel and refusal of a ratio change by constant-rate engines (real soxr.c, one call from any state).',
+      'Partial: the audio statements (-80 dB residual, no discontinuity at ratio changes / stage cross-fades) are floating-point properties and are NOT decided; the stage-switch rescaling inside vr_process is not covered by the unit obligations; slew lengths from a stated list, |target-step| < 2^20 (quick).')
